@@ -57,9 +57,11 @@ MANIFEST_ENTRY = {
             "elements); allocation either succeeds or panics; the Nelua compiler that compiles the driver; no cross-property file dependencies",
     "technique": "machine-checked proof in Coq over an executable model + regenerated parameters + extracted-model/implementation correspondence",
 }
-# main: a refinement/behaviour statement about the model of the library; corollary: follows from a main one or is a
-# narrow instance; definitional: restates a definition (kept as reading aid); tripwire: facts about scraped constants
 THEOREM_CLASSES = {
+    # "main" only for statements of the property's own clauses (contents / length / lookup / return values / iteration
+    # order and coverage equal the abstract model's, per operation from any well-formed state, precondition failures
+    # stopped by the check; nothing lost by rehash or by removal during iteration; equal keys hash alike).  Histories
+    # follow by induction; bounds, allocation failure, destroy and the NUL slot go beyond the clauses: "corollary".
     "C12_vector_step_refines_list": "main",
     "C12_vector_history_refines_list": "corollary",          # induction over the step theorem
     "C12_vector_observers": "corollary",
@@ -69,36 +71,37 @@ THEOREM_CLASSES = {
     "C12_sequence_remove_guard": "corollary",                # the check added by repair 3181cf6, instance of the step theorem
     "C12_hashmap_step_refines_map": "main",
     "C12_hashmap_history_refines_map": "corollary",
-    "C12_hashmap_no_overflow_below_2p50": "main",            # bounds the Overflow disjunct of the two above (uses facts about the scraped rates)
+    "C12_hashmap_no_overflow_below_2p50": "corollary",       # supporting bound on the Overflow branch (uses facts about the scraped rates)
     "C12_hashmap_empty_related": "corollary",
     "C12_hashmap_iteration_each_binding_once": "main",
     "C12_hashmap_next_follows_iteration_order": "main",
     "C12_hashmap_erase_during_iteration": "main",
     "C12_hashmap_irreflexive_keys": "corollary",
     "C12_hashmap_rehash_preserves_bindings": "main",
-    "C12_hashmap_is_flat_map": "main",
+    "C12_hashmap_is_flat_map": "main",                       # the iteration-ORDER clause: order, capacity, bucket count independent of the hash
     "C12_hashmap_hash_independent_exact": "corollary",       # of the flat-map theorem
+    "C12_hashmap_histories_below_2p50": "corollary",         # the two above without the Overflow branch
     "C12_hashmap_hash_independent": "corollary",             # weaker (Permutation-level) form for association-list-related starts
     "C12_hashmap_overflow_only_beyond_2p62": "corollary",
     "C12_hash_coherent_float": "main",
     "C12_hash_coherent_record": "main",
     "C12_hash_coherent_aggregates": "main",
     "C12_hash_byte_loop_total": "corollary",                 # the model's fuel/default are dead code
-    "C12_hash_coherent_integer_boolean": "corollary",
+    "C12_hash_coherent_integer_boolean": "corollary",        # == on integers/booleans is Leibniz equality
     "C12_stringbuilder_step_refines_bytes": "main",
     "C12_stringbuilder_history_refines_bytes": "corollary",
     "C12_stringbuilder_nul_slot": "corollary",
-    "C12_stringbuilder_commit_guard": "main",                # full strength since repair 8abaeda
+    "C12_stringbuilder_commit_guard": "corollary",           # instance of the step theorem (full strength since repair 8abaeda)
     "C12_stringbuilder_commit_exact": "corollary",
     "C12_stringbuilder_rollback_guard": "corollary",
-    "C12_stringbuilder_allocation_failure": "main",
-    "C12_stringbuilder_write_many_allocation_failure": "main",
+    "C12_stringbuilder_allocation_failure": "corollary",     # beyond the clauses: refusing allocator
+    "C12_stringbuilder_write_many_allocation_failure": "corollary",
     "C12_span_window_refines_list": "main",
     "C12_span_guards": "definitional",                       # unfolds span_at/span_sub, the right-hand side of the theorem above
     "C12_list_step_refines_list": "main",
     "C12_list_history_refines_list": "corollary",
     "C12_list_observers": "corollary",
-    "C12_allocation_failure_aborts": "main",
+    "C12_allocation_failure_aborts": "corollary",            # beyond the clauses: refusing allocator
     "C12_hashmap_rehash_request_sizes": "corollary",
     "C12_destroy_resets": "corollary",
 }
